@@ -56,7 +56,7 @@ func c13assembleCases(g *Gen, dir string, assemble func(*generator.File, string)
 			case strings.Contains(err.Error(), "is a directory"):
 				ec = list(atom("create"))
 			default:
-				ec = list(tag("?", atom(err.Error())))
+				ec = list(tag("?unclassified?", atom(err.Error())))
 			}
 		}
 		disk := list()
